@@ -143,19 +143,24 @@ def joinNl : List Str → Str
 
 def unknownKey : Str := "unknown".toList
 
-/-- one iteration of the merging loop over `(name, value)` items -/
-def mergeStep (data : Dict) (nv : Str × Str) : Dict :=
+/-- the distinct values seen so far under each name, in insertion order of the names -/
+abbrev VDict := List (Str × List Str)
+
+def vset : VDict → Str → List Str → VDict
+  | [], k, v => [(k, v)]
+  | (k', v') :: rest, k, v => if k' = k then (k', v) :: rest else (k', v') :: vset rest k v
+
+/-- one iteration of the merging loop over `(name, value)` items: a repeated name keeps each distinct
+non-empty value once, whole -/
+def mergeStep (data : VDict) (nv : Str × Str) : VDict :=
   let name := strip (lowerAscii nv.1)
   let value := strip nv.2
-  match data.lookup name with
-  | some old =>
-    let existing := splitlines old
-    let existing := if existing.contains value then existing else existing ++ [value]
-    dset data name (joinNl existing)
-  | none => dset data name value
+  let values := (data.lookup name).getD []
+  vset data name (if value.isEmpty || values.contains value then values else values ++ [value])
 
-/-- the merging loop over `(name, value)` items -/
-def mergeItems (items : List (Str × Str)) : Dict := items.foldl mergeStep []
+/-- the merging loop over `(name, value)` items; `data[name] = '\n'.join(values)` -/
+def mergeItems (items : List (Str × Str)) : Dict :=
+  (items.foldl mergeStep []).map fun kv => (kv.1, joinNl kv.2)
 
 /-- `get_paragraph_data(text)` (without signature removal) -/
 def getParagraphData (text : Str) : Dict :=
